@@ -58,6 +58,17 @@ def c01_random(ctx, n_core, n_ext):
             else:
                 steps.append(dict(ops=[U.op_eps(rng.choice(["s1", "s2"]), rng.choice(["e0", "e1", "e2"]))]))
         hs.append(dict(id="st-%d" % i, opt=opt, steps=steps))
+    # a small auth-proxy range shared by external authentications placed in the backend and in the frontend: targets change, binds are
+    # released and reused
+    urls = ["http://10.0.0.9:8000/auth", "http://10.0.0.8:8000/auth", "http://10.0.0.7:8000/auth", "http://10.0.0.6:8000/auth"]
+    for i in range(max(30, n_ext // 10)):
+        cmx = U.op_cm({"auth-proxy": "_front__auth:14415-1441%d" % rng.choice([5, 6, 6, 7])})
+        mk = lambda slot: U.op_ing(slot, {1: "t1", 2: "t9", 3: "t2"}[slot], dict({"auth-url": rng.choice(urls)}, **({"auth-external-placement": "frontend"} if rng.random() < 0.4 else {})))
+        steps = [dict(ops=U.base_ops() + [U.op_sec("c2", "crt:c2"), cmx, mk(1), mk(2)])]
+        for k in range(3 + rng.randrange(3)):
+            r = rng.random()
+            steps.append(dict(ops=[mk(rng.choice([1, 2, 3]))] if r < 0.75 else [U.op_del("ing", "d/i%d" % rng.choice([1, 2, 3]))]))
+        hs.append(dict(id="ax-%d" % i, opt=dict(shards=0, watchwithoutclass=True), steps=steps))
     # TCP services of the tcp-services ConfigMap
     hs += [U.random_tcpcm_history(rng, "rm-%d" % i, steps=4 + rng.randrange(3)) for i in range(max(60, n_ext // 5))]
     # pods behind the endpoints: drain-support, blue/green by pod label, names, cookies and ids taken from the pod
